@@ -369,7 +369,7 @@ type unitCall struct{ key, name string }
 // calleeMatches: a contract names a callee by its last component ("Sign") or,
 // where that is ambiguous, by a qualified suffix ("Sign1.Sign", "kex.Suite.New").
 func calleeMatches(pat, full string) bool {
-	return full == pat || strings.HasSuffix(full, "."+pat)
+	return full == pat || strings.HasSuffix(full, "."+pat) || strings.HasSuffix(full, "/"+pat)
 }
 
 // unitOrdinal: the ordinal of the call site `key` among the static call sites of
